@@ -378,3 +378,25 @@ F("B29f", "C06", RO, "      if not self._HasDiscreteLog(mod_p, self.F4, prime):\
 F("B29g", "C06", RS, "      n_msb = n >> (n.bit_length() - 64)", "      n_msb = n >> (n.bit_length() - 32)", "R-C06-KEYPAIR", "table key 32 bits")
 F("B29h", "C06", RS, "        p, q = keypair_generator.Generator(seed).generate_key(n.bit_length())", "        p, q = keypair_generator.Generator(seed).generate_key(2048)", "R-C06-KEYPAIR", "regeneration with a fixed size")
 F("B29i", "C06", EC, "    paranoid_pb2.CurveType.CURVE_SECT571R1: None,\n", "", "R-C06-ENUM", "a curve id missing from the factory")
+
+# ---------------------------------------------------------------------------------- C13
+TS = L + "randomness_tests/random_test_suite.py"
+RU2 = L + "randomness_tests/util.py"
+F("D24", "C13", TS, "      if pval < self.p_value_fail:", "      if pval <= self.p_value_fail:", "R-C13-STATE", "fails on ties with the fail level")
+F("D25", "C13", TS, "        if repeat_prob < pval:", "        if repeat_prob > pval:", "R-C13-STATE", "PASSED/UNDECIDED swapped")
+F("D26", "C13", TS, "    self.finished = undecided == 0 and self.runs >= self.min_repetitions", "    self.finished = undecided == 0 or self.runs >= self.min_repetitions", "R-C13-STATE", "finished with undecided sub-tests")
+F("D26b", "C13", TS, "        repeat_prob = util.CombinedPValue([self.p_value_repeat] * len(pvals))", "        repeat_prob = util.CombinedPValue([self.p_value_repeat] * self.runs)", "R-C13-STATE", "repeat level combined over the wrong count")
+F("D26c", "C13", TS, "      pvals.append(p_value)\n      pval = util.CombinedPValue(pvals)", "      pval = util.CombinedPValue(pvals)\n      pvals.append(p_value)", "R-C13-STATE", "combined before the new value is appended")
+F("D26d", "C13", TS, "          self.state[name] = State.UNDECIDED\n          undecided += 1", "          self.state[name] = State.UNDECIDED", "R-C13-STATE", "undecided never counted: suite stops early")
+F("D26e", "C13", TS, "      self.finished = True\n      return True", "      self.finished = False\n      return False", "R-C13-STATE", "insufficient data keeps the suite looping")
+F("D27", "C13", TS, "  LogTotal(tests)\n  if log_level >= 1:\n    logging.info(\"total time: %4.2fs\", time.time() - start_total)\n  return any(test.Failed() for test in tests)\n\n\ndef TestBitString",
+  "  LogTotal(tests)\n  if log_level >= 1:\n    logging.info(\"total time: %4.2fs\", time.time() - start_total)\n  return all(test.Failed() for test in tests)\n\n\ndef TestBitString", "R-C13-ENTRY", "TestSource returns all()")
+F("D27b", "C13", TS, "    return any(state == State.FAILED for state in self.state.values())", "    return any(state != State.PASSED for state in self.state.values())", "R-C13-ENTRY", "undecided counted as failed")
+F("D27c", "C13", TS, "TESTS = NIST_TESTS + EXTENDED_NIST_TESTS + LATTICE_TESTS", "TESTS = NIST_TESTS + EXTENDED_NIST_TESTS", "R-C13-ENTRY", "lattice tests dropped from the suite")
+F("D27d", "C13", TS, "    (nist_suite.Serial, []),\n", "", "R-C13-ENTRY", "Serial test unregistered")
+F("D27e", "C13", TS, "          TestStructure(test, params, significance_level, significance_level))", "          TestStructure(test, params, significance_level, 0.01))", "R-C13-ENTRY", "TestBitString with a different repeat level")
+F("D27f", "C13", RU2, "  elif min(pvalues) == 0:\n    return 0\n", "", "R-C13-FISHER", "zero shortcut removed")
+F("D27g", "C13", RU2, "    return Igamc(len(pvalues), s)", "    return Igamc(len(pvalues) - 1, s)", "R-C13-FISHER", "wrong shape parameter")
+T("D28", "C13", TS, "      if pval < self.p_value_fail:\n        self.state[name] = State.FAILED\n      else:\n        repeat_prob = util.CombinedPValue([self.p_value_repeat] * len(pvals))\n        if repeat_prob < pval:\n          self.state[name] = State.PASSED\n        else:\n          self.state[name] = State.UNDECIDED\n          undecided += 1",
+  "      if not (pval < self.p_value_fail):\n        repeat_prob = util.CombinedPValue([self.p_value_repeat] * len(pvals))\n        if pval > repeat_prob:\n          self.state[name] = State.PASSED\n        else:\n          self.state[name] = State.UNDECIDED\n          undecided += 1\n      else:\n        self.state[name] = State.FAILED",
+  "branches flipped, comparison mirrored")
